@@ -120,6 +120,13 @@ StepOffset(e) ==
                   inr == /\ a[1] = 0
                          /\ (a[2] < 64800 \/ (a[2] = 64800 /\ a[3] = 0))
               IN  Outcome(e, inr, secs, "offset_from_units")
+    [] e.op = "o_from_td" ->     \* a standard-library timedelta <<days, seconds, microseconds>> (normalised: seconds, microseconds >= 0)
+         LET secs == e.td[1] * 86400 + e.td[2]
+             micro == e.td[3]
+             inRange == secs >= -64800 /\ (secs < 64800 \/ (secs = 64800 /\ micro = 0))
+             trunc == IF secs >= 0 \/ micro = 0 THEN secs ELSE secs + 1
+         IN  /\ Outcome(e, inRange, trunc, "offset_from_timedelta")
+             /\ Check(~Has(e, "dur_exc") /\ Has(e, "dur") /\ e.dur = <<e.td[1], e.td[2], micro * 1000>>, "duration_from_timedelta_exact")
     [] e.op = "o_hm" -> Outcome(e, OffsetInRange(e.h * 3600 + e.m * 60), e.h * 3600 + e.m * 60, "offset_from_hours_and_minutes")
     [] e.op = "o_add" -> Outcome(e, OffsetInRange(e.a + e.b), e.a + e.b, "offset_add")
     [] e.op = "o_sub" -> Outcome(e, OffsetInRange(e.a - e.b), e.a - e.b, "offset_subtract")
